@@ -395,6 +395,9 @@ pub fn c19(args: &Args) -> i32 {
     quiet_panics();
     if let Some(p) = &args.replay {
         let j = read_replay(p);
+        if j["case"]["leg"] == "interleavings" {
+            return crate::e4_c19::replay(args, &j["case"]);
+        }
         let h: Vec<usize> = serde_json::from_value(j["case"]["history_idx"].clone()).expect("history_idx");
         let at = j["case"]["enable_at"].as_u64().unwrap_or(0) as usize;
         let r = c19_one(&h, at);
@@ -405,7 +408,7 @@ pub fn c19(args: &Args) -> i32 {
     }
     let run = Run::new(args, "model_checking", 55.0, 1500.0);
     let depth = if run.quick() { 4 } else { 5 };
-    run.set_rule("sequential leg: all histories up to the depth bound over {ins a, ins b, ins [a,a], ins [a,b], del a, del b, del [a,b], del absent} through StorageEngine::insert_tuples_into / delete_tuples_from on one KG, incremental maintenance enabled just before step k for every k (replay of existing data included); after every later step IncrementalEngine::read_relation_consistent must return exactly the set model of the relation, without duplicates. non-trivial = (history, k) with at least one write after enabling; states = distinct (model, depth). The interleaving leg (readers vs writers) is E4's");
+    run.set_rule("sequential leg: all histories up to the depth bound over {ins a, ins b, ins [a,a], ins [a,b], del a, del b, del [a,b], del absent} through StorageEngine::insert_tuples_into / delete_tuples_from on one KG, incremental maintenance enabled just before step k for every k (replay of existing data included); after every later step IncrementalEngine::read_relation_consistent must return exactly the set model of the relation, without duplicates. non-trivial = (history, k) with at least one write after enabling; states = distinct (model, depth). E4 leg: see `interleavings` in the coverage block");
     let mut cases: Vec<(Vec<usize>, usize)> = vec![];
     let mut level: Vec<Vec<usize>> = vec![vec![]];
     for _ in 0..depth {
@@ -425,6 +428,7 @@ pub fn c19(args: &Args) -> i32 {
         level = nx;
     }
     run.put("cases", json!(cases.len()));
+    crate::e4_c19::interleavings(&run, 0.4);
     let states = std::sync::Mutex::new(BTreeSet::new());
     let done = run.par_for(cases.len(), threads(), |i, l| {
         let (h, k) = &cases[i];
